@@ -859,11 +859,13 @@ fn min_form() -> Ex {
     Bin("-", b(Pre("-", b(Num(i64::MAX, 0)))), b(Num(1, 0)))
 }
 
-/// boundary operands: 0, ±1, 2, 2^31, 2^63-1, -2^63, shift counts 62..65, and variables
+/// boundary operands: 0, ±1, 2, 2^31, 2^63-2, 2^63-1, -2^63, -2^63+1, shift counts -1 0 1 62..65 2^63-1, and variables
 fn atoms() -> Vec<Ex> {
-    let mut v: Vec<Ex> = [0i64, 1, 2, 1 << 31, i64::MAX, 62, 63, 64, 65].iter().map(|n| Num(*n, 0)).collect();
+    let mut v: Vec<Ex> = [0i64, 1, 2, 1 << 31, i64::MAX - 1, i64::MAX, 62, 63, 64, 65].iter().map(|n| Num(*n, 0)).collect();
     v.push(Pre("-", b(Num(1, 0))));
     v.push(min_form());
+    // MIN + 1
+    v.push(Pre("-", b(Num(i64::MAX, 0))));
     for x in ["a", "b", "z", "m", "n"] {
         v.push(var(x));
     }
